@@ -160,7 +160,11 @@ Definition abyss_user (s : kstate) (snd rcv : ref) (m : umsg) : kstate * list ob
 
 Definition deliver_user (s : kstate) (target snd : ref) (m : umsg) : kstate * list obs :=
   match lookup target (registry s) with
-  | Some u => (upd_actor s u (fun a => w_userq (a_userq a ++ [mk_env snd target m]) a), [])
+  | Some u =>
+      match get s u with
+      | Some a => (put s u (w_userq (a_userq a ++ [mk_env snd target m]) a), [])
+      | None => abyss_user s snd target m       (* cannot happen: the registry only holds existing objects *)
+      end
   | None => abyss_user s snd target m
   end.
 
@@ -293,7 +297,7 @@ Fixpoint send_each (s : kstate) (self : ref) (targets : list ref) (n : Z) (sn : 
   | t :: rest =>
       let '(s1, o1) := deliver_user s t self (UProbe n sn) in
       let '(s2, o2) := send_each s1 self rest n sn in
-      (s2, OS self t sn :: o1 ++ o2)
+      (s2, o1 ++ o2)
   end.
 
 (* one scripted action performed by object u; cur_snd = sender of the message being handled *)
@@ -308,7 +312,9 @@ Definition do_action (s : kstate) (u : nat) (cur_snd : ref) (act : action) : R :
       | AReply n =>
           if cur_snd =? rNone then ok s []
           else let '(s1, sn) := next_serial s in let '(s2, o) := deliver_user s1 cur_snd self (UProbe n sn) in ok s2 (OS self cur_snd sn :: o)
-      | ABcast n => let '(s1, sn) := next_serial s in let '(s2, o) := send_each s1 self (a_children a) n sn in ok s2 o
+      | ABcast n =>
+          let '(s1, sn) := next_serial s in let '(s2, o) := send_each s1 self (a_children a) n sn in
+          ok s2 (map (fun t => OS self t sn) (a_children a) ++ o)
       | ASpawn t r => let '(s1, o, p) := spawn s u self t r in (s1, OSp self t :: o, p)
       | ATerm t g => let '(s1, o) := terminate s self t g in ok s1 (OTr self t g :: o)
       | AWatch t => ok (deliver_sys s t self SWatch) [OW self t]
@@ -325,15 +331,23 @@ Fixpoint do_actions (s : kstate) (u : nat) (cur_snd : ref) (acts : list action) 
   end.
 
 (* ctx.actor.OnReceive(ctx) for a message the scripted actors react to *)
-Definition handle (s : kstate) (u : nat) (t : trig) (sn : nat) (snd : ref) : R :=
+Definition is_sys (t : ref) : bool := (t =? rGuard) || (t =? rSub).
+
+(* [quiet]: the message is addressed to a system actor (/user, /user/sub): not instrumented, no script *)
+Definition handle_q (quiet : bool) (s : kstate) (u : nat) (t : trig) (sn : nat) (snd : ref) : R :=
   match get s u with
   | None => ok s []
   | Some a =>
-      if (a_tok a =? rGuard) || (a_tok a =? rSub) then ok s []      (* system actors: not instrumented, no script *)
+      if quiet then ok s []
       else
         let shown := match t with TP _ => snd | _ => rNone end in
         let '(s1, o, p) := do_actions s u snd (find_rule (rules (role_of a)) t (a_inst a)) in
         (s1, OH (a_tok a) (a_inst a) t sn shown :: o, p)
+  end.
+Definition handle (s : kstate) (u : nat) (t : trig) (sn : nat) (snd : ref) : R :=
+  match get s u with
+  | None => ok s []
+  | Some a => handle_q (is_sys (a_tok a)) s u t sn snd
   end.
 
 Fixpoint terminate_all (s : kstate) (self : ref) (cs : list ref) (g : bool) : kstate * list obs :=
@@ -427,13 +441,15 @@ Definition process_sys (s : kstate) (u : nat) (e : env smsg) : R :=
   | None => ok s []
   | Some a =>
       let snd := e_snd e in
+      let drop := match a_st a, e_msg e with Terminated, SWatch => false | Terminated, _ => true | _, _ => false end in
+      if drop then ok s [] else     (* a terminated actor only answers watch requests that were still queued *)
       match e_msg e with
       | SLaunch =>
           handle s u TL 0%nat snd >>= (fun s1 => ok (upd_actor s1 u (w_accidents 0%nat)) [])
       | SRestarted => handle s u TRD 0%nat snd
       | STerminate g =>
           match a_st a with
-          | Alive =>
+          | Alive | Restarting =>
               let s1 := upd_actor s u (w_st Terminating) in
               let s2 := deliver_sys s1 (a_tok a) (a_tok a) SResume in
               handle s2 u TT 0%nat snd >>= (fun s3 =>
@@ -458,14 +474,18 @@ Definition process_sys (s : kstate) (u : nat) (e : env smsg) : R :=
             | None => ok s2 []
             end)
       | SRestart =>
-          let s1 := upd_actor s u (w_st Restarting) in
-          handle s1 u TRG 0%nat snd >>= (fun s2 =>
-            match get s2 u with
-            | None => ok s2 []
-            | Some a2 =>
-                let '(s3, o3) := terminate_all s2 (a_tok a2) (a_children a2) false in
-                let '(s4, o4, p) := try_restarted s3 u snd in (s4, o3 ++ o4, p)
-            end)
+          match a_st a with
+          | Alive =>
+              let s1 := upd_actor s u (w_st Restarting) in
+              handle s1 u TRG 0%nat snd >>= (fun s2 =>
+                match get s2 u with
+                | None => ok s2 []
+                | Some a2 =>
+                    let '(s3, o3) := terminate_all s2 (a_tok a2) (a_children a2) false in
+                    let '(s4, o4, p) := try_restarted s3 u snd in (s4, o3 ++ o4, p)
+                end)
+          | _ => ok s []       (* only a living actor can be restarted *)
+          end
       | SAccident r => on_accident s u r snd
       | SWatch =>
           if st_ge_terminating (a_st a) then ok (deliver_sys s snd (a_tok a) (STerminatedOf (a_tok a))) []
@@ -487,7 +507,7 @@ Definition process_user (s : kstate) (u : nat) (e : env umsg) : R :=
         | UTermG =>
             let s1 := upd_actor s u (w_graceful true) in
             ok (deliver_sys s1 (a_tok a) (a_tok a) (STerminate false)) []
-        | UProbe n sn => handle s u (TP n) sn (e_snd e)
+        | UProbe n sn => handle_q (is_sys (e_rcv e)) s u (TP n) sn (e_snd e)
         | UPub => ok s []
         end
   end.
